@@ -71,7 +71,9 @@ def density_body_factory(ctx):
                 if ins:
                     # 1e-6: pytensor keeps float32-representable constants (a, b) in single precision, which moves
                     # the normalisation constant by ~1e-8; the property makes no precision claim beyond "same density"
-                    if not (abs(li - wi) <= 1e-6 * (1 + abs(wi)) or (oe and li == -np.inf)):
+                    # (the end points belong to the support: draws do land on them - the bounds are kept as float32 constants
+                    # whenever they are representable - and such rows must get a finite ln_prior)
+                    if not abs(li - wi) <= 1e-6 * (1 + abs(wi)):
                         raise Violation("UniformLog.logp inside the support is not -ln x - ln ln(b/a)", a=a, b=b, x=xi, got=li, want=wi)
                 elif not (li == -np.inf):
                     raise Violation("UniformLog.logp outside the support is not -inf", a=a, b=b, x=xi, got=li)
@@ -134,6 +136,8 @@ def prior_cases(draw):
     noff = draw(st.integers(0, 2))
     pr = draw(gens.prior_spec(noff, gens.rounded(draw(gens.logfloat(1e-2, 1e2))), gens.rounded(draw(gens.logfloat(1.0, 1e3))),
                               max_poly=3, units=True, sampled_s=True))
+    if pr["via"] == "manual" and draw(st.booleans()):
+        pr["pars_order"] = draw(st.integers(0, 1000))      # variables handed to the constructor in another order
     return {"prior": pr, "seed": draw(st.integers(0, 2**32 - 1)), "generate_linear": draw(st.booleans())}
 
 
